@@ -585,6 +585,10 @@ func RunMapInitExpr(ctx *Task, expr *ast.MapLiteral) (any, ast.DType, *errchain.
 // }
 
 func RunIndexExprGet(ctx *Task, expr *ast.IndexExpr) (any, ast.DType, *errchain.PlError) {
+	if expr.Obj == nil {
+		return nil, ast.Invalid, NewRunError(ctx,
+			"index expression without an object", indexExprPos(expr))
+	}
 	key := expr.Obj.Name
 
 	varb, err := ctx.GetKey(key)
@@ -612,6 +616,14 @@ func RunIndexExprGet(ctx *Task, expr *ast.IndexExpr) (any, ast.DType, *errchain.
 	}
 
 	return searchListAndMap(ctx, varb.Value, expr.Index)
+}
+
+// indexExprPos is the position of an index expression that has no object (`.[i]`).
+func indexExprPos(expr *ast.IndexExpr) token.LnColPos {
+	if len(expr.LBracket) > 0 {
+		return expr.LBracket[0]
+	}
+	return token.InvalidLnColPos
 }
 
 func searchListAndMap(ctx *Task, obj any, index []*ast.Node) (any, ast.DType, *errchain.PlError) {
@@ -905,6 +917,10 @@ func RunAssignmentExpr(ctx *Task, expr *ast.AssignmentExpr) (any, ast.DType, *er
 				"unsupported op", expr.OpPos)
 		}
 	case ast.TypeIndexExpr:
+		if LHS.IndexExpr().Obj == nil {
+			return nil, ast.Invalid, NewRunError(ctx,
+				"index expression without an object", indexExprPos(LHS.IndexExpr()))
+		}
 		switch expr.Op {
 		case ast.EQ:
 			varb, err := ctx.GetKey(LHS.IndexExpr().Obj.Name)
